@@ -274,3 +274,143 @@ DivNApp(ty, i, d) ==
    laws |-> Law(IF \A k \in 1..Len(cs) : cs[k].sig = "ok"
                THEN x.sig = "ok" /\ x.v = TupleV([k \in 1..Len(cs) |-> cs[k].v])
                ELSE x.sig # "ok", "div-by-number-componentwise")]
+
+---------------------------------------------------------------------------
+(* the type table: [ty, qs] - qs = stride of the pair enumeration in the quick tier (coprime to Count(ty)) *)
+Int4 == IntT(<<0, 1, 0 - 1, 2>>)
+Int3 == IntT(<<0, 1, 0 - 1>>)
+Int2 == IntT(<<0, 1>>)
+IntL == IntT(<<0, 1, 2>>)
+Fl3  == FloatT(<< <<1, 1>>, <<3, 1>>, <<0 - 2, 0>> >>)        \* 0.5, 1.5, -2.0
+Fl2  == FloatT(<< <<1, 1>>, <<0 - 2, 0>> >>)
+Str4 == StrT(<<"", "a", "ab", "b">>)
+Str3 == StrT(<<"", "a", "ab">>)
+Str2 == StrT(<<"a", "b">>)
+StrS == StrT(<<"", "a">>)
+TIS  == TupT(<<Int2, Str2>>)
+BlobA(it) == BlobT("A", <<[f |-> "x", ty |-> it]>>)
+BlobB == BlobT("B", <<[f |-> "p", ty |-> TIS], [f |-> "q", ty |-> ListT(Int2, 2)]>>)
+EnumE == EnumT("E", <<UV0("N"), UV1("I", Int4), UV1("T", TIS), UV1("L", ListT(Int2, 1))>>)
+EnumS == EnumT("E", <<UV0("N"), UV1("I", Int2), UV1("T", TupT(<<Int2, StrT(<<"a">>)>>))>>)
+BlobC == BlobT("C", <<[f |-> "a", ty |-> BlobA(Int2)], [f |-> "e", ty |-> EnumS]>>)
+TE(ty, qs) == [ty |-> ty, qs |-> qs]
+
+TypeTable == <<
+  TE(Int4, 1), TE(Fl3, 1), TE(Str4, 1), TE(BoolT, 1),
+  TE(TupT(<<Int4>>), 1), TE(TupT(<<Int4, Int4>>), 1), TE(TupT(<<Int4, Int4, Int4>>), 5),
+  TE(TupT(<<Fl3, Fl3>>), 1), TE(TupT(<<Int4, Fl3>>), 1),
+  TE(TupT(<<Str4>>), 1), TE(TupT(<<Str4, Str4>>), 1), TE(TupT(<<Int4, Str4>>), 1),
+  TE(TupT(<<Str3, Int3, Fl2>>), 1), TE(TupT(<<BoolT, Int3>>), 1),
+  TE(ListT(IntL, 3), 3), TE(ListT(StrS, 2), 1), TE(ListT(Fl3, 2), 1), TE(ListT(TIS, 2), 1),
+  TE(ListT(ListT(Int2, 2), 2), 5),
+  TE(BlobA(Int4), 1), TE(BlobB, 3), TE(EnumE, 1),
+  TE(TupT(<<TupT(<<Int3, Int3>>), TupT(<<Int3>>)>>), 2),
+  TE(TupT(<<TupT(<<Int3, Int3>>), TupT(<<Int3, Int3>>)>>), 7),
+  TE(TupT(<<TupT(<<Str2, Int3>>), Int3>>), 1),
+  TE(TupT(<<TupT(<<Fl2, Fl2>>), Fl2>>), 1), TE(TupT(<<TupT(<<Str2, Str2>>), Str2>>), 1),
+  TE(TupT(<<ListT(Int2, 2), Int3>>), 2), TE(TupT(<<EnumS, Int2>>), 1),
+  TE(ListT(BlobA(Int2), 2), 1), TE(ListT(EnumS, 2), 2), TE(BlobC, 1) >>
+
+(* depth-3 types, sampled by simulation in the thorough tier *)
+DeepTable == <<
+  TupT(<<TupT(<<TupT(<<Int3, Str2>>), Int3>>), TupT(<<Fl2, TupT(<<Int3>>)>>)>>),
+  TupT(<<Int3, TupT(<<Int3, TupT(<<Int3, Int3>>)>>)>>),
+  ListT(ListT(ListT(Int2, 2), 2), 2),
+  ListT(TupT(<<TupT(<<Int2, Str2>>), ListT(Int2, 1)>>), 2),
+  BlobT("C", <<[f |-> "a", ty |-> BlobA(Int4)], [f |-> "e", ty |-> EnumE]>>),
+  TupT(<<EnumE, ListT(TIS, 1)>>),
+  ListT(TupT(<<EnumS, BlobA(Int2)>>), 2) >>
+
+---------------------------------------------------------------------------
+(* mixed provenance: the same value built two ways must be == *)
+TLI == TList(TInt)
+Push(lty, init, es) == IIFE(lty, <<DefC(1, lty, init)>>
+                                  \o (IF Len(es) = 0 THEN <<>> ELSE [i \in 1..Len(es) |-> Ex(Call(Std("list.push"), <<V(1), es[i]>>))])
+                                  \o <<Ex(V(1))>>)
+PushL(es) == Push(TLI, Lst(<<>>), es)
+Inc == Pu(<<P(2, TInt)>>, TInt, <<Ex(Bin("+", V(2), I(1)))>>)
+Pos == Pu(<<P(2, TInt)>>, TBool, <<Ex(Bin(">", V(2), I(0)))>>)
+Big == Pu(<<P(2, TInt)>>, TBool, <<Ex(Bin(">", V(2), I(7)))>>)
+TIStr == TTuple(<<TInt, TStr>>)
+BLit(p, q) == BlobL("B", <<FI("p", p), FI("q", q)>>)
+ALit(x) == BlobL("A", <<FI("x", x)>>)
+PE(shape, form, l, r) == [shape |-> shape, form |-> form, l |-> l, r |-> r, ordered |-> FALSE]
+PO(shape, form, l, r) == [shape |-> shape, form |-> form, l |-> l, r |-> r, ordered |-> TRUE]
+Just(e) == Var1("Maybe", "Just", e)
+None == Var0("Maybe", "None")
+
+ProvTable == <<
+  PE("list(int)", "push", PushL(<<I(1)>>), Lst(<<I(1)>>)),
+  PE("list(int)", "push", PushL(<<I(1), I(2)>>), Lst(<<I(1), I(2)>>)),
+  PE("list(int)", "push", PushL(<<I(1), I(2)>>), Lst(<<I(1)>>)),
+  PE("list(int)", "push", PushL(<<I(1)>>), Lst(<<I(1), I(2)>>)),
+  PE("list(int)", "pop", IIFE(TLI, <<DefC(1, TLI, Lst(<<I(1)>>)), Ex(Call(Std("list.pop"), <<V(1)>>)), Ex(V(1))>>), Lst(<<>>)),
+  PE("list(int)", "map", Call(Std("map"), <<Lst(<<I(0), I(1)>>), Inc>>), Lst(<<I(1), I(2)>>)),
+  PE("list(int)", "filter", Call(Std("filter"), <<Lst(<<I(0), I(1), I(2)>>), Pos>>), Lst(<<I(1), I(2)>>)),
+  PE("list(int)", "filter", Call(Std("filter"), <<Lst(<<I(0), I(1)>>), Big>>), Lst(<<>>)),
+  PE("list(list(int))", "push", Push(TList(TLI), Lst(<<>>), <<Lst(<<I(1)>>), Lst(<<>>)>>), Lst(<<Lst(<<I(1)>>), Lst(<<>>)>>)),
+  PE("list(list(int))", "push", Push(TList(TLI), Lst(<<>>), <<PushL(<<I(1)>>)>>), Lst(<<Lst(<<I(1)>>)>>)),
+  PE("list(tuple(int,str))", "map",
+     Call(Std("map"), <<Lst(<<I(0), I(1)>>), Pu(<<P(2, TInt)>>, TIStr, <<Ex(Tup(<<V(2), St("a")>>))>>)>>),
+     Lst(<<Tup(<<I(0), St("a")>>), Tup(<<I(1), St("a")>>)>>)),
+  PO("tuple(int,int)", "arith", Bin("+", Tup(<<I(1), I(2)>>), Tup(<<I(0), I(1)>>)), Tup(<<I(1), I(3)>>)),
+  PO("tuple(int,int)", "arith", Bin("*", Tup(<<I(1), I(2)>>), Tup(<<I(2), I(2)>>)), Tup(<<I(2), I(4)>>)),
+  PO("tuple(int,int)", "arith", Bin("-", Tup(<<I(1), I(2)>>), Tup(<<I(0), I(1)>>)), Tup(<<I(1), I(2)>>)),
+  PO("tuple(float,float)", "arith", Bin("/", Tup(<<I(1), I(2)>>), I(2)), Tup(<<Fl(1, 1), Fl(1, 0)>>)),
+  PO("tuple(float,float)", "arith", Bin("/", Tup(<<I(1), I(2)>>), Tup(<<I(2), I(1)>>)), Tup(<<Fl(1, 1), Fl(2, 0)>>)),
+  PO("tuple(tuple(int,int),tuple(int))", "arith",
+     Bin("+", Tup(<<Tup(<<I(1), I(2)>>), Tup(<<I(3)>>)>>), Tup(<<Tup(<<I(0), I(0)>>), Tup(<<I(0)>>)>>)),
+     Tup(<<Tup(<<I(1), I(2)>>), Tup(<<I(3)>>)>>)),
+  PO("tuple(int,str)", "call", Call(Fn(<<P(2, TIStr)>>, TIStr, <<Ex(V(2))>>), <<Tup(<<I(1), St("a")>>)>>), Tup(<<I(1), St("a")>>)),
+  PO("tuple(int,str)", "field", Fld(BLit(Tup(<<I(1), St("a")>>), Lst(<<I(0)>>)), "p"), Tup(<<I(1), St("a")>>)),
+  PO("tuple(int,int)", "index", Idx(Tup(<<Tup(<<I(1), I(2)>>), I(3)>>), 0), Tup(<<I(1), I(2)>>)),
+  PO("tuple(str,int)", "concat", Tup(<<Bin("+", St("a"), St("b")), I(1)>>), Tup(<<St("ab"), I(1)>>)),
+  PO("str", "concat", Bin("+", St("a"), St("b")), St("ab")),
+  PE("blob(A)", "assign", IIFE(TName("A"), <<DefC(1, TName("A"), ALit(I(0))), Asg("=", Fld(V(1), "x"), I(1)), Ex(V(1))>>), ALit(I(1))),
+  PE("blob(B)", "push-field",
+     IIFE(TName("B"), <<DefC(1, TName("B"), BLit(Tup(<<I(1), St("a")>>), Lst(<<>>))),
+                        Ex(Call(Std("list.push"), <<Fld(V(1), "q"), I(1)>>)), Ex(V(1))>>),
+     BLit(Tup(<<I(1), St("a")>>), Lst(<<I(1)>>))),
+  PE("blob(B)", "computed-field", BLit(Tup(<<Bin("+", I(0), I(1)), Bin("+", St("a"), St(""))>>), PushL(<<I(1)>>)),
+     BLit(Tup(<<I(1), St("a")>>), Lst(<<I(1)>>))),
+  PE("enum(E)", "computed-payload", Var1("E", "I", Bin("+", I(0), I(1))), Var1("E", "I", I(1))),
+  PE("enum(E)", "call", Call(Fn(<<P(2, TInt)>>, TName("E"), <<Ex(Var1("E", "I", V(2)))>>), <<I(1)>>), Var1("E", "I", I(1))),
+  PE("enum(E)", "list-payload", Var1("E", "L", PushL(<<I(1)>>)), Var1("E", "L", Lst(<<I(1)>>))),
+  PE("enum(E)", "tuple-payload", Var1("E", "T", Idx(Tup(<<Tup(<<I(1), St("a")>>), I(3)>>), 0)), Var1("E", "T", Tup(<<I(1), St("a")>>))),
+  PE("enum(Maybe)", "list.get", Call(Std("list.get"), <<Lst(<<I(1)>>), I(0)>>), Just(I(1))),
+  PE("enum(Maybe)", "list.get", Call(Std("list.get"), <<Lst(<<I(1)>>), I(0)>>), Just(I(2))),
+  PE("enum(Maybe)", "list.get-none", Call(Std("list.get"), <<Lst(<<I(1)>>), I(5)>>), None),
+  PE("enum(Maybe)", "list.find", Call(Std("list.find"), <<Lst(<<I(0), I(1)>>), Pos>>), Just(I(1))),
+  PE("enum(Maybe)", "list.find-none", Call(Std("list.find"), <<Lst(<<I(0), I(1)>>), Big>>), None),
+  PE("enum(Maybe)", "list.pop", Call(Std("list.pop"), <<Lst(<<I(1), I(2)>>)>>), Just(I(2))),
+  PE("enum(Maybe)", "list.pop-none", Call(Std("list.pop"), <<Push(TLI, Lst(<<>>), <<>>)>>), None),
+  PE("enum(Maybe)", "literal", Just(Tup(<<I(1), St("a")>>)), Just(Tup(<<I(1), St("a")>>))),
+  PE("enum(Maybe)", "literal-none", None, None) >>
+
+\* the same object on both sides (`v == v`), for one value of every table type
+AliasExpr(op, e) == IIFE(TBool, <<DefC(1, TNone, e), Ex(Bin(op, V(1), V(1)))>>)
+
+ProvOps(p) == IF p.ordered THEN EqOps \o OrdOps ELSE EqOps
+\* items of provenance entry p: (l op r) for all ops, (r op l) for the equalities
+ProvApps(p) ==
+  LET q == EvalE(Bin("==", p.l, p.r), 0, S0)
+      rel == IF q.sig = "ok" /\ q.v.k = "bool" /\ q.v.v THEN "equal" ELSE "differ"
+      mk(op, l, r, form) == LET x == EvalE(Bin(op, l, r), 0, S0) IN
+          [ok |-> x.sig = "ok", stuck |-> x.sig # "ok",
+           item |-> [op |-> op, shape |-> p.shape, rel |-> rel, form |-> form, e |-> Bin(op, l, r),
+                     want |-> IF x.sig = "ok" THEN Snap(x) ELSE NilV]]
+      ops == ProvOps(p) IN
+  [i \in 1..Len(ops) |-> mk(ops[i], p.l, p.r, p.form)] \o [i \in 1..2 |-> mk(EqOps[i], p.r, p.l, p.form \o "-flipped")]
+ProvLaws(p) ==
+  LET x == EvalE(Bin("==", p.l, p.r), 0, S0)  y == EvalE(Bin("==", p.r, p.l), 0, S0) IN
+  Law(x.sig = "ok" /\ y.sig = "ok" /\ x.v = y.v, "symmetric-across-provenance")
+
+AliasApps(ty) ==
+  LET e == Nth(ty, Count(ty) - 1)
+      ops == EqOps \o (IF Ordered(ty) THEN OrdOps ELSE <<>>)
+      mk(op) == LET x == EvalE(AliasExpr(op, e), 0, S0) IN
+          [ok |-> x.sig = "ok", stuck |-> x.sig # "ok",
+           item |-> [op |-> op, shape |-> Shape(ty), rel |-> "equal", form |-> "alias", e |-> AliasExpr(op, e),
+                     want |-> IF x.sig = "ok" THEN Snap(x) ELSE NilV]] IN
+  [i \in 1..Len(ops) |-> mk(ops[i])]
+=============================================================================
